@@ -430,7 +430,7 @@ PROPS["C12"] = {
             "canonical JSON.",
     "assumptions": COMMON_ASSUMPTIONS + [
         "schedules are sampled (spin delays, 16 cores, race detector), not enumerated or controlled; the optional yield hooks of the property were not built",
-        "expiry-driven removals are not part of the concurrent workloads (they need real time to pass)",
+        "expiry-driven removals have a part of their own (real time, one case per second): the linearizability oracle is not applied there, only crash / race / never-resurrected / gone-afterwards / bystanders-untouched",
         "a failure found here is schedule-dependent: the saved case reproduces it only with some probability",
     ],
     "parts": [
@@ -438,6 +438,10 @@ PROPS["C12"] = {
          "quick": {"checks": 600, "shards": 4}, "thorough": {"checks": 8000, "shards": 16}},
         {"name": "race-detector", "mode": "race", "test": "TestC12",
          "quick": {"checks": 80, "shards": 4}, "thorough": {"checks": 1000, "shards": 16}},
+        {"name": "expiry", "mode": "plain", "test": "TestC12Expiry",
+         "quick": {"checks": 12, "shards": 4}, "thorough": {"checks": 150, "shards": 8}},
+        {"name": "expiry-race", "mode": "race", "test": "TestC12Expiry",
+         "quick": {"checks": 10, "shards": 4}, "thorough": {"checks": 100, "shards": 8}},
     ],
 }
 
@@ -577,3 +581,9 @@ PROPS["C07"]["rule"] += (" Besides the expiring items the histories hold a rule 
                          "(usually of the expiring rule r1, for the same events) and a rule that never expires; a failing ProcessEvent is "
                          "a violation whenever the model has a rule that must be dispatched.")
 PROPS["C01"]["rule"] += " Rule ids are also overwritten by scheduled rules (which events never dispatch) and by facts whose 'rule' is not a rule body."
+
+PROPS["C12"]["rule"] += (" Expiry part: facts and rules that expire at the next full second (optionally with deleteWith dependents) "
+                         "are read by 2-6 clients (get, search, rule list, rule look-up, events, unrelated writes) across that "
+                         "instant in real time; no crash, no race report, every read gives the written value or not-found and "
+                         "never the item again after not-found, afterwards the expired items and their dependents are gone from "
+                         "memory and storage and the items without expiry are untouched.")
